@@ -246,6 +246,12 @@ def run(ctx):
                 rep.violation("D1-CPUID-TABLE", where(f), "foreign-store", "detected feature word written outside orccpu-x86.c", line=n.line)
     rep.ok("D1-CPUID-TABLE", "orc/orccpu-x86.c", "who-may-write", "feature words are written only by the cpuid handlers")
 
+    # ---- D9: a target requested by name is that target ------------------------------------------------
+    from rules_common import check_exact_name_lookup
+    check_exact_name_lookup(db.func("orc_target_get_by_name", "orctarget"), rep, "D9-NAME-EXACT",
+                            "a request for one back end (\"c64x-c\", or a misspelt name) silently gets another whose name is a prefix of it, and an "
+                            "override naming an unknown back end is honoured")
+
     # ---- D3 executability ---------------------------------------------------
     want_exec = {"sse": ("orcprogram-sse", "sse_is_executable", ["ORC_TARGET_SSE_SSE2"]),
                  "mmx": ("orcprogram-mmx", "mmx_is_executable", ["ORC_TARGET_MMX_MMX"]),
